@@ -12,6 +12,7 @@ T: workloads built from TLC-simulated documents of all classes, failing inputs a
 import json
 import os
 import random
+import re
 import subprocess
 import sys
 import threading
@@ -188,13 +189,48 @@ def run(ctx):
     ctx.extra["deep_documents"] = len(deep)
     for xml in deep:
         jobs.append(("convert", xml))
+        # (a response root with statement wrappers: writing it must leave the instance - every nested one - as it was)
+        jobs.append(("to_etree", {"xml": xml}))
+        jobs.append(("serialize", {"xml": xml, "version": 203, "pretty": False, "close": True}))
+    # directed: documents that convert but cannot be WRITTEN (a decimal that is not a number), next to the same documents with a
+    # number: a failing write leaves nothing behind for the following writes
+    unwritable = 0
+    for fn_, payload in list(jobs):
+        if fn_ == "convert" and isinstance(payload, str) and unwritable < (25 if quick else 300):
+            m_ = re.search(r"<(TRNAMT|BALAMT|UNITS|UNITPRICE|TOTAL|MKTVAL)>[^<]*</\1>", payload)
+            if m_ and rnd.random() < 0.5:
+                bad = payload[:m_.start()] + "<%s>NaN</%s>" % (m_.group(1), m_.group(1)) + payload[m_.end():]
+                for _ in range(2):
+                    jobs.append(("to_etree", {"xml": bad}))
+                    jobs.append(("to_etree", {"xml": payload}))
+                jobs.append(("serialize", {"xml": bad, "version": 203, "pretty": False, "close": True}))
+                unwritable += 1
+    ctx.extra["unwritable_document_jobs"] = unwritable
+    # directed: a root element the models do not define (a misspelt <OFX_>, a fragment): refused, and the caller's tree untouched
+    nroot = 0
+    for fn_, payload in list(jobs):
+        if fn_ == "convert" and isinstance(payload, str) and nroot < (25 if quick else 300) and rnd.random() < 0.1:
+            m_ = re.match(r"<([A-Z0-9_.]+)>", payload)
+            if m_ and payload.endswith("</%s>" % m_.group(1)):
+                t_ = m_.group(1)
+                jobs.append(("convert", "<%s_>" % t_ + payload[len(t_) + 2:-(len(t_) + 3)] + "</%s_>" % t_))
+                nroot += 1
+    ctx.extra["unknown_root_jobs"] = nroot
     # directed: the same instant written in different zones (equal as values, different as texts), in every order
+    # (kept together as a block that every context runs in an order of its own, right after its other jobs: whatever a
+    # cache keyed on the VALUE would remember from one zone shows in the next)
+    zone_block = []
     for inst_ in ("2020,1,2,3,4,5,678900", "1999,12,31,23,59,59,999999", "2024,2,29,12,0,0,0"):
         for off, nm in ((0, "UTC"), (-300, "EST"), (330, "IST"), (840, "LINT"), (-30, "X")):
-            jobs.append(("unconv", {"type": "DateTime",
-                                    "value": "datetime.datetime(%s,tzinfo=datetime.timezone.utc).astimezone(datetime.timezone(datetime.timedelta(minutes=%d),'%s'))" % (inst_, off, nm)}))
-            jobs.append(("unconv", {"type": "Time",
-                                    "value": "datetime.datetime(%s,tzinfo=datetime.timezone.utc).astimezone(datetime.timezone(datetime.timedelta(minutes=%d),'%s')).timetz()" % (inst_, off, nm)}))
+            zone_block.append(("unconv", {"type": "DateTime",
+                                          "value": "datetime.datetime(%s,tzinfo=datetime.timezone.utc).astimezone(datetime.timezone(datetime.timedelta(minutes=%d),'%s'))" % (inst_, off, nm)}))
+            zone_block.append(("unconv", {"type": "Time",
+                                          "value": "datetime.datetime(%s,tzinfo=datetime.timezone.utc).astimezone(datetime.timezone(datetime.timedelta(minutes=%d),'%s')).timetz()" % (inst_, off, nm)}))
+
+    def zblock(seed_):
+        b = list(zone_block)
+        random.Random(seed_).shuffle(b)
+        return b
     # date-time heavy documents through the class-level (shared) converters, for the threaded runs
     heavy = []
     for k in range(24):
@@ -250,7 +286,8 @@ def run(ctx):
     sub = jobs[: (150 if quick else 1500)] + directed
     rnd.shuffle(sub)
     # ... and once after a prelude that uses the abstract base classes before any concrete class
-    for name, order in (("fresh-forward", sub), ("fresh-reverse", list(reversed(sub))), ("fresh-bases-first", [("prelude", "bases")] + sub)):
+    for name, order in (("fresh-forward", sub + zblock(1)), ("fresh-reverse", list(reversed(sub)) + zblock(2)),
+                        ("fresh-bases-first", [("prelude", "bases")] + sub + zblock(3))):
         jf = os.path.join(ctx.work, name + ".job.json")
         of = os.path.join(ctx.work, name + ".out.json")
         json.dump(order, open(jf, "w"))
@@ -264,8 +301,10 @@ def run(ctx):
     for rep in range(2):
         order = list(jobs)
         rnd.shuffle(order)
+        order += zblock(10 + rep)
         add([W.run_call(fn, payload, "inprocess-%d" % rep) for fn, payload in order])
-    # (d) threads
+    # (d) threads; whole files through OFXTree.parse in every thread at the same time
+    parse_heavy = [j for j in jobs if j[0] == "parse"][:12]
     old = sys.getswitchinterval()
     sys.setswitchinterval(1e-6)
     try:
@@ -274,7 +313,8 @@ def run(ctx):
             barrier = threading.Barrier(nthreads)
 
             def work(k, nthreads=nthreads):
-                mine = list(jobs[: (200 if quick else 1200)]) + [("convert", x) for x in deep] * (12 if quick else 40) \
+                mine = list(jobs[: (200 if quick else 1200)]) + parse_heavy * (8 if quick else 30) \
+                    + [("convert", x) for x in deep] * (12 if quick else 40) \
                     + [("convert", x) for x in heavy] * (6 if quick else 20) \
                     + [("to_etree", {"xml": x}) for x in heavy] * (2 if quick else 6)
                 random.Random(k).shuffle(mine)
